@@ -1,4 +1,4 @@
 SPECIFICATION TSpec
-INVARIANTS SupplyDeltaT TxNeverMintsT RewardScheduleT NoTxErrT
+INVARIANTS GeneratorOKT SupplyDeltaT TxNeverMintsT RewardScheduleT NoTxErrT
 POSTCONDITION TraceAccepted
 CHECK_DEADLOCK FALSE
